@@ -82,7 +82,8 @@ DECIDED = {
             "(1 <= w < 10^19, no digit dropped) or brackets it (trunc) together with the raw text - the precondition of the float runs."),
     "C08": ("Raw numbers: deserialize_rawnumber (bare and quoted) captures exactly the span the number grammar delimits and rejects "
             "everything else; the validating number skipper == grammar; non-finite floats -> null; the integer clause by reduction: "
-            "every digit string itoa can emit is read back exactly (C07 integer harnesses), itoa's contract trusted; the read-back half "
+            "every digit string itoa can emit is read back exactly (C07 integer harnesses), every integer of every width incl. 128 bits is handed to itoa unchanged "
+            "(u_int_widths_reach_itoa), itoa's contract trusted; the read-back half "
             "of the float clause for the table-driven constructor: every <= 19-digit significand with a decimal exponent in the stated set "
             "is read as the nearest double (SMT over MIR, see C07), so a shortest-round-trip digit string of that shape reads back to the "
             "double it denotes."),
@@ -103,7 +104,10 @@ DECIDED = {
             "end every later call yields None (one step from an arbitrary state); the unchecked iterators' string skipper across block edges."),
     "C13": ("Partial: skip_one returns the exact span and escape status (what LazyValue captures); OwnedLazyValue built from raw text of "
             "every JSON value class (From<LazyValue>, new) reports the same type/bool/null answers and never reaches unreachable!(); a failed "
-            "as_array_mut/as_object_mut probe leaves a raw value untouched; (thorough) taking the cached decoding out of a LazyRaw empties the cache."),
+            "as_array_mut/as_object_mut probe, and a get_mut with an index kind that cannot apply, leave a raw value untouched and never "
+            "decode it; the clone of a raw value is still the raw text whether or not its decoding was cached, with its own copy of the "
+            "cache (F12); the clone of a LazyValue keeps its escape status; (thorough) taking the cached decoding out of a LazyRaw empties "
+            "the cache."),
     "C14": ("The C02/C10 harnesses read in the other direction: whenever the validating skipper / checked walkers / checked iterator "
             "driver return Ok(span), the reference accepts exactly that span and everything traversed before it."),
     "C17": ("(a) every vector primitive of every backend file (sse2.rs, v256.rs, v512.rs as selected on this target; avx2.rs and v128.rs "
@@ -138,7 +142,7 @@ OUTSIDE = {
             "DocumentVisitor, arena layout, back-pointer header, read API (as_ref2, slices): the arena half did not fit in CBMC (DESIGN.md section 3)",
             "values of numbers (C07) and decoded strings (C09) inside the DOM"],
     "C05": ["arbitrary value families (derive code is not explored)", "itoa/ryu digit generation", "the Compound comma/colon/indent machine "
-            "and a failing writer end to end (harnesses w_compound_shape / w_failing_writer ran out of memory)", "BytesMut writers", "MapKeySerializer",
+            "and a failing writer end to end (harnesses w_compound_shape / w_failing_writer ran out of memory)", "BytesMut writers", "MapKeySerializer beyond char and integer keys",
             "strings >= 32 bytes (block path of format_string: b_format_string_w28 needs 21 minutes and is not registered)",
             "the release-only over-read branch"],
     "C07": ["the big-decimal fallback parse_long_mantissa and every literal with > 19 significant digits "
@@ -147,7 +151,7 @@ OUTSIDE = {
             "solver decides it; release builds wrap there by design)", "literals with more than 22 integer or 22 fraction digits or more than 3 exponent digits, and rejection of "
             "malformed literals beyond 7 bytes (the grammar is decided by u_parse_number_grammar_n7 / u_skip_number_*)", "typed narrowing by serde's primitive "
             "visitors", "the call site of the 16-digit SIMD fraction reader inside parse_number_fraction on inputs >= 16 bytes (the kernel is decided, by Kani for need <= 9 and by SMT for 1..16)"],
-    "C08": ["ryu digit generation and its read-back for f64/f32", "128-bit integers", "Serialize for RawNumber / numeric accessors of RawNumber"],
+    "C08": ["ryu digit generation and its read-back for f64/f32", "reading 128-bit integers back (the u128 scanner of the serde deserializer)", "Serialize for RawNumber / numeric accessors of RawNumber"],
     "C09": ["parse_string_inplace loops and padding", "parse_string_escaped / parse_escaped_char (Vec traffic) end to end",
             "lossy repair of invalid UTF-8 bytes (String::from_utf8_lossy path)", "strings > 40 bytes / more than one interesting window"],
     "C10": ["unchecked walkers get_from_object/get_from_array end to end (their skippers are decided, the walkers are not)",
